@@ -38,6 +38,12 @@ def body(led):
     py_panel.check_calc_k0(led, replay=replays.panel_matrix('k0', 'plate', False))
     ok, _ = K.compare(real('F00') * 2, real('F00'))
     led.canary('2*F00 vs F00', not ok)
+    _standin(led)
+
+
+def _standin(led):
+    from . import sparse_standin
+    sparse_standin.check(led, ['make_symmetric', 'finalize_symmetric_matrix'])
 
 
 def main():
